@@ -133,6 +133,31 @@ def d2_random(ctx, which, nontrivial, n, do_model=True, aborts=True):
         d2_one(ctx, which, name, opts, kind, data, dec, nontrivial, do_model, abort_cls=cls, fail_at=fail_at, label="D2-random")
 
 
+def d2_touching_test(ctx, which, n):
+    """the interestingness test's tool rewrites the testcase file in place during some tests (monitors only: the model's
+    world has no such writes).  'What the file contained during the test' / 'the accepted version' is what Lithium wrote,
+    i.e. what the test found when it started."""
+    rng = ctx.rng
+    combos = [(s, k, d) for s in STRATS if s[0] != "check-only" for k, ds in INPUTS.items() for d in ds[:2]]
+    for i in range(n):
+        (name, opts), kind, data = combos[i % len(combos)]
+        p = rng.choice([0.2, 0.5, 0.8])
+        seq = [rng.random() < p for _ in range(400)]
+        tseq = [rng.random() < 0.5 for _ in range(400)]
+        abort_at = rng.randint(1, 10) if rng.random() < 0.3 else None
+
+        def dec(k, disk, seq=seq, abort_at=abort_at):
+            if abort_at is not None and k == abort_at:
+                return "x"
+            return "a" if k == 0 or seq[k % len(seq)] else "r"
+
+        o, f, run = scripts.play_real(name, opts, kind, data, dec, touch=lambda k, tseq=tseq: tseq[k % 400])
+        case = case_of(f, [run], strategy=name, splitter=kind, data=common.enc_bytes(data), stream="D2-touching-test")
+        ctx.evaluations += 1
+        ctx.bump("D2-touching-test")
+        apply_monitors(ctx, which, [o], [run], f, data, case)
+
+
 def d2_abort_everywhere(ctx, which, nontrivial, do_model=True):
     """abort (and inject an internal failure) at every test index of a fixed run"""
     rng = ctx.rng
